@@ -107,6 +107,32 @@ CHECKS = {
          "cr_crlf positions after eol consumed CRLF (known finding F11)."),
    note=GENERAL_NOTE + " Partial with respect to the statement's 'non-default initial counters' clause: that clause is refuted by F10 (KNOWN-FINDING), proved for default counters. size_t wrap-around is not modelled.",
    technique="Lean 4 proof with Int offsets about an executable model of at/begin_of_line/end_of_line/line_at; exhaustive differential run under ASan/UBSan; Python line-splitter oracle"),
+ 'C04': dict(engine='matcher-model', design_ref='DESIGN.md §6 C04',
+   text=("Proof (Lean 4): for every grammar table, action attachment (void / vetoing / throwing apply and apply0, disable_action / enable_action / change_action / limit bases), input, mode and fuel: "
+         "the actions that take effect are exactly the transactional reading of the trace — an invocation that fails or is left by an exception contributes nothing, whatever ran inside (C04_surviving, C04_fail_drops); "
+         "an invocation of a rule with an enabled action whose body matched calls it exactly once, after every inner event, with begin = cursor at entry and end = cursor after the body (C04_once_with_span); with "
+         "actions disabled (at, not_at, disable, apply_mode::nothing, no enable inside) no action event occurs at all (C04_disabled); a bool action returning false makes the invocation a local failure with the cursor restored (C04_veto)."),
+   note=GENERAL_NOTE + " 'Transactional' is a statement about which action calls belong to successful ancestors; PEGTL does not undo side effects of actions that ran inside a rule that later fails, and the property does not ask for it. apply/apply0/if_apply *rules* (internal/apply.hpp) are not modelled.",
+   technique="Lean 4 proof by trace-predicate closure over all rule bodies (survivors = fold of the trace; once-with-span from the match.hpp protocol); differential correspondence incl. action-family and apply-mode switching; trace oracle that recomputes family/mode per invocation"),
+ 'C07': dict(engine='leaf-buffer', design_ref='DESIGN.md §6 C07',
+   text=("Proof (Lean 4): for the model of buffer_input (allocation of maximum + Chunk bytes, reader with arbitrary short-read schedule, require loop, discard memmove, iterator save/restore): the invariant "
+         "(cur <= end <= capacity, buffer bytes = stream bytes at the logical offset, nothing touched outside the allocation) holds initially and is kept by every operation used within its contract and by any legal sequence "
+         "(C07_inv_init, C07_inv, C07_inv_reach); require either reports overflow exactly when cur + amount exceeds the capacity or leaves min(amount, remaining) bytes available with cursor, position and old bytes unchanged, for every schedule "
+         "(C07_require); size/empty/peek/bump agree with the memory-input model at the same logical position (C07_window_eq, C07_bump_eq); discard keeps view and position and moves data exactly when cur > Chunk (C07_discard); saved iterators stay valid "
+         "across require and are invalidated by a moving discard (C07_rewind, C07_discard_invalidates); every atom over the buffer either overflows or behaves as on memory (C07_run_sim_partial)."),
+   note=GENERAL_NOTE + " Partial: the lift of the simulation through the combinator bodies is explored by the whole-run differential (memory_input vs buffer_input with ~7 capacity/Chunk/schedule triples per case, plus file/mmap/stream/argv inputs), not proved; fread/mmap/ifstream are not modelled; utf8::range and maximum_rule are not transcribed over the buffer; pointer sums are in Nat (no wrap-around).",
+   technique="Lean 4 invariant + refinement proof about an executable model of buffer_input; exhaustive short-read-schedule differential against the real class under ASan; whole-run differential across all input classes; independent Python oracle"),
+ 'C14': dict(engine='translators', design_ref='DESIGN.md §6 C14',
+   text=("Proof (Lean 4): for the node table translated from contrib/json.hpp on every run (Gen = Expected obligation), seq< json::text, eof > succeeds in the PEG formalism iff the input is a JSON text of RFC 8259 "
+         "(C14_sound and C14_complete, both for all inputs), it can never raise (C14_no_throw), and every terminating run of the matcher model agrees (C14_run via C01)."),
+   note=GENERAL_NOTE + " Also trusted: the translator vlib/translate_grammar.py (guarded by the sync obligation and the differential run), Spec/Rfc8259.lean as transcription of the RFC (cross-checked against spec/rfc8259.abnf by an ABNF interpreter and against json.loads). Termination of run is C11's subject and not part of this claim.",
+   technique="Lean 4 language-equality proof over the PEG formalism of a node table translated from json.hpp; differential real-parse vs Lean model (8.6M cases quick); independent RFC 8259 recogniser cross-checked against an ABNF interpreter and json.loads"),
+ 'C20': dict(engine='translators', design_ref='DESIGN.md §6 C20',
+   text=("Proof (Lean 4): for the node table translated from contrib/uri.hpp on every run (Gen = Expected obligation): whatever URI, URI_reference, absolute_URI, IPv4address, IPv6address (and each of 39 named rules) accept is derivable "
+         "from the RFC 3986 production of the same name (C20_sound, C20_rule_sound); dec_octet accepts exactly the canonical numerals <= 255 with maximal munch (C20_dec_octet); only parse_errors blaming one of ten must-rules can escape "
+         "(C20_exceptions). Completeness is refuted at host (C20_host_witness: 's://1.2.3.4x' is RFC-derivable and rejected; known finding F9) and otherwise explored by the differential oracle."),
+   note=GENERAL_NOTE + " Partial: completeness (RFC-derivable => accepted) is not proved; it is false at host = sor< IP_literal, IPv4address, reg_name > (KNOWN-FINDING F9) and explored elsewhere against two independent ABNF recognisers. The RFC transcription spec/rfc3986.abnf is trusted.",
+   technique="Lean 4 soundness proof over a translated node table (sync obligation each run); differential run of the real parser against the model, the PEG evaluator and two independent ABNF recognisers; F9 classifier with control input"),
 }
 
 PENDING = {
@@ -128,6 +154,9 @@ def main():
             {'name': 'matcher-model', 'path': 'lean/PegtlVerif/Model/Run.lean + vlib/engine.py + harness/vharness.hpp',
              'serves_properties': [k for k, v in CHECKS.items() if v['engine'] == 'matcher-model'],
              'kind_free_text': "Lean 4 executable model of match.hpp and the internal/*.hpp match() bodies with theorems; generated-C++ differential harness"},
+            {'name': 'translators', 'path': 'vlib/translate_grammar.py + vlib/c20_translate.py + lean/PegtlVerif/Audit/*Sync.lean',
+             'serves_properties': [k for k, v in CHECKS.items() if v['engine'] == 'translators'],
+             'kind_free_text': "Grammar headers translated to Lean node tables on every run; theorems over the expected table + Gen = Expected obligation; differential drivers"},
             {'name': 'leaf-models', 'path': 'lean/PegtlVerif/Model/{Unescape,Lines,...}.lean + harness/leaf_*.cpp',
              'serves_properties': [k for k, v in CHECKS.items() if v['engine'].startswith('leaf')],
              'kind_free_text': "Lean 4 models of leaf functions with theorems; line-protocol differential drivers"}],
